@@ -110,6 +110,8 @@ where
                             // Step 1: Do work.
                             if pending.is_empty() {
                                 pending = {
+                                    #[cfg(getong_stateright_verif)]
+                                    crate::verif::yield_point(21);
                                     let jobs = job_broker.pop();
                                     if jobs.is_empty() {
                                         log::debug!(
@@ -135,6 +137,8 @@ where
                                 &max_depth,
                                 symmetry,
                             );
+                            #[cfg(getong_stateright_verif)]
+                            crate::verif::yield_point(22);
                             if job_broker.is_shut_down() {
                                 // Timed out, or another worker stopped: observed once per
                                 // block even if this worker never shares or requests work.
@@ -165,6 +169,8 @@ where
 
                             // Step 2: Share work.
                             if pending.len() > 1 && thread_count > 1 {
+                                #[cfg(getong_stateright_verif)]
+                                crate::verif::yield_point(23);
                                 job_broker.split_and_push(&mut pending);
                             }
                         }
@@ -306,6 +312,8 @@ where
                     continue;
                 }
                 state_count.fetch_add(1, Ordering::Relaxed);
+                #[cfg(getong_stateright_verif)]
+                crate::verif::yield_point(24);
 
                 // Skip if already generated.
                 //
